@@ -148,8 +148,11 @@ where
     usize: AsPrimitive<LexerTypesT::StorageT>,
     LexerTypesT::StorageT: TryFrom<usize>,
 {
+    /// Parse `src` from byte offset `start` onwards (i.e. after any `%grmtools` section, which
+    /// the caller deals with): all spans are relative to the beginning of `src`.
     pub(super) fn new_with_lex_flags(
         src: String,
+        start: usize,
         mut lex_flags: LexFlags,
     ) -> LexBuildResult<LexParser<LexerTypesT>> {
         let LexFlags {
@@ -190,7 +193,7 @@ where
                 Span::new(0, 0),
             )],
         };
-        p.parse()?;
+        p.parse(start)?;
         Ok(p)
     }
 
@@ -202,9 +205,9 @@ where
         }
     }
 
-    fn parse(&mut self) -> LexBuildResult<usize> {
+    fn parse(&mut self, start: usize) -> LexBuildResult<usize> {
         let mut errs = Vec::new();
-        let mut i = match self.parse_declarations(0, &mut errs) {
+        let mut i = match self.parse_declarations(start, &mut errs) {
             Ok(i) => i,
             Err(e) => {
                 errs.push(e);
